@@ -148,6 +148,30 @@ def run(b, ps, tier, seed):
     ok_tools = not b.probe_error and not b.model_error
     if ok_tools:
         impl, model, mism = S.correspond(b, "parse", cases, project=project, timeout=1200)
+    # (0) grammar drift: the productions recovered from the current tables against the committed reference grammar
+    drift_info = None
+    try:
+        from .. import grammardrift as GD
+        dr = GD.drift()
+        if dr is not None:
+            drift_info = {"new_productions": [str(q) for q in dr["new"]], "removed_productions": [str(q) for q in dr["removed"]], "candidates": len(dr["candidates"])}
+            found = 0
+            if ok_tools:
+                cc = [("drift:%d" % k, "drift", txt) for k, (q, toks, txt) in enumerate(dr["candidates"])]
+                ri = S.run_tool(b.probe, "parse", cc, timeout=300)
+                for k, (q, toks, txt) in enumerate(dr["candidates"]):
+                    if verdict(ri.get("drift:%d" % k, "MISSING")) == "OK" and not GD.earley(dr["ref_prods"], dr["start"], toks):
+                        found += 1
+                        violations.append(C.Violation(
+                            "the parser accepts %r, which is not a sentence of the reference grammar (production %s is not a reference production)" % (txt, q),
+                            {"property": PROP, "kind": "accepted-outside-grammar", "input_text": txt, "input_hex": txt.encode("latin1").hex(),
+                             "tokens": toks, "production": str(q), "replay_cmd": "bin/check C12 --replay <this file>"}))
+            if not found:
+                violations.append(C.Violation(
+                    "the grammar recovered from the LR tables differs from the reference grammar (new: %s; removed: %s); no accepted non-sentence was constructed" % (dr["new"][:3], dr["removed"][:3]),
+                    {"property": PROP, "kind": "unproven", "no_longer_checks": [{"what": "theorem C12_grammar_is_reference (spec/RefGrammar.v)", "detail": str(drift_info)}]}, found_input=False))
+    except Exception as e:  # noqa: BLE001
+        drift_info = {"error": repr(e)[:300]}
     # (1) correspondence on the projected observable
     for i, k, t, a, m in mism[:5]:
         va, vm = verdict(a), verdict(m)
@@ -251,6 +275,7 @@ def run(b, ps, tier, seed):
         "recovered_grammar": gram,
         "suite_wall_s": round(dt, 1),
     }
+    cov["grammar_drift"] = drift_info or "none: recovered productions = reference productions (75)"
     return {"violations": violations, "known": [], "coverage": cov,
             "assumptions": ["bufio/utf8 decoding is outside the model (bytes >= 0x80 are one class; validated by the byte-level streams)",
                             "the grammar the theorem speaks about is the one RECOVERED from the LALR tables of parser.y.go (printed in coverage.recovered_grammar); "
